@@ -96,18 +96,62 @@
 (* lock until its connection closes.  Scenario field rdr says which workers *)
 (* keep the get_all_pages() cursor open when `cursor` is set: 0 = all,      *)
 (* k = only worker k (a long-lived reader beside writers without cursor).   *)
+(*                                                                          *)
+(* SIDE FILES PER PATH.  <db>-wal (the log) and <db>-shm (the index of the  *)
+(* log, shared memory of the attached connections) are files of their own   *)
+(* beside <db>.  Each belongs to the GENERATION (main-file inode) whose     *)
+(* connections created it: sf.wal / sf.shm = generation of the file at that *)
+(* path, 0 = no such file; sf.att[p] = generation of the index process p    *)
+(* has mapped (from its first access until its connection is closed; a      *)
+(* process keeps its open files whatever happens to the paths).  What the   *)
+(* first access of a connection on generation i finds at the paths:         *)
+(*   nothing                  -> it creates a fresh pair of generation i;   *)
+(*   a pair of generation i   -> it joins the others (or recovers its own   *)
+(*                               log after a killed process);               *)
+(*   an index somebody else has mapped is TRUSTED as it is.  If it belongs  *)
+(*     to another generation and its log is not at the path (an index       *)
+(*     without its log) it points at frames the opener cannot read:         *)
+(*     "disk I/O error" for this opener and for every later one for as long *)
+(*     as the other process lives (StaleIndex); with its log at the path    *)
+(*     the opener reads the OTHER database's pages (JoinsOldLog);           *)
+(*   an index nobody has mapped is reset and rebuilt from the log at the    *)
+(*     path, whatever it held: harmless - unless that log belongs to        *)
+(*     another generation (a log without its index, or with an orphaned     *)
+(*     one): its frames are replayed over the file (JoinsOldLog).           *)
+(* The restore (create_db, backup file present) replaces the database file  *)
+(* and must therefore remove BOTH side files of the replaced database from  *)
+(* the paths before the backup is renamed there; a process that still has   *)
+(* the replaced database open carries on with its unlinked files, the       *)
+(* restoring worker and all later ones start a fresh pair on the restored   *)
+(* file (NoStaleSideFile).  The LAST connection of a generation that closes *)
+(* checkpoints and removes the side files by name - only when its database  *)
+(* file is still the one at the path (SQLite checks that: a connection on a *)
+(* replaced file touches nothing when it closes).                           *)
+(* Who can be attached to the database that a restore replaces: the         *)
+(* creating context D (scenario drv together with bak: it wrote the backup  *)
+(* with backup_db(), went on storing pages and is still open), or - field   *)
+(* bkd - D writes the backup WHILE workers are open (action Backup, at any  *)
+(* moment no worker is inside create_db): the workers that are open then    *)
+(* stay on the replaced file, every worker that starts later restores.      *)
+(*      "RestoreKeepsShm"  - (hypothetical, Demo only) the restore removes  *)
+(*                            <db>-wal but leaves <db>-shm ("only the index *)
+(*                            of the log, SQLite rebuilds it")              *)
+(*      "RestoreKeepsWal"  - (hypothetical, Demo only; the defect           *)
+(*                            StaleWalKept fixed under C11) the restore     *)
+(*                            leaves <db>-wal                               *)
 EXTENDS Naturals, Sequences, FiniteSets, TLC
 
 CONSTANTS
   Procs,       \* worker ids
   Dev,         \* deviations switched on
-  Scenarios    \* set of [bak, boot, cursor, drv, prov, rdr]: backup file present / bootstrap page stored /
+  Scenarios    \* set of [bak, boot, cursor, drv, prov, rdr, bkd]: backup file present / bootstrap page stored /
                \* workers keep a get_all_pages() cursor open while they work /
                \* the creating context is still open when the workers start /
                \* provenance of the files: "built" (library-made WAL database closed cleanly, backup = such a
                \* file put under the backup name), "lib" (backup written by backup_db() of an earlier context),
                \* "rbj" (the files are in rollback-journal mode) /
-               \* which workers keep the cursor: 0 = all, k = worker k only
+               \* which workers keep the cursor: 0 = all, k = worker k only /
+               \* bkd: the creating context writes the backup (backup_db) at some moment while it is open
 
 RestoreRace == "RestoreRaceOnStartup" \in Dev
 BootSnap == "BootstrapUnderSnapshot" \in Dev
@@ -119,6 +163,8 @@ CloseTidies == "CloseRemovesSideFiles" \in Dev
 BackupDropsMode == "BackupDropsJournalMode" \in Dev
 ModeByCreatorOnly == "ModeSetByCreatorOnly" \in Dev
 CommitSkipped == "CommitSkippedWhenUnchanged" \in Dev
+\* the side files the restore leaves at their paths
+RestoreKeeps == (IF "RestoreKeepsWal" \in Dev THEN {"wal"} ELSE {}) \cup (IF "RestoreKeepsShm" \in Dev THEN {"shm"} ELSE {})
 
 D == 0                       \* the creating context (driver); only ever closes
 PAll == Procs \cup {D}
@@ -144,15 +190,22 @@ VARIABLES
   snapfail,      \* ghost: a bootstrap write failed because of a stale read snapshot
   opn,           \* process -> its connection is open (connect .. close)
   txn,           \* process -> transaction state of its connection: "none" | "write" | "begun"
-  life           \* ghost: lifetime pattern of the run: nlcD/nlcW = the driver / a worker closed while
+  life,          \* ghost: lifetime pattern of the run: nlcD/nlcW = the driver / a worker closed while
                  \* another connection was open; lateD/lateW = a context connected after such a close
+  sf             \* side files: [wal, shm: generation (main-file inode) of the file at the path <db>-wal / <db>-shm,
+                 \* 0 = no such file; att: process -> generation of the index it has mapped, 0 = none;
+                 \* stale (ghost): "none" | "shm" (a connection trusted an index without its log) | "wal" (a log of
+                 \* another generation was laid over the file); live (ghost): who had the database open that a
+                 \* restore replaced ("D", or where the worker was: "idle" / its label); after (ghost): number of
+                 \* first accesses to a restored file while a process of a replaced generation was still open]
 
-vars == <<scn, pmain, pbak, ino, wlock, pc, conn, snap, saw, res, chk, raced, snapfail, opn, life, txn>>
+vars == <<scn, pmain, pbak, ino, wlock, pc, conn, snap, saw, res, chk, raced, snapfail, opn, life, txn, sf>>
 
 BakPresent == scn.bak
 BootPresent == scn.boot
 Cursor(p) == scn.cursor /\ (scn.rdr = 0 \/ scn.rdr = p)
 Driver == scn.drv
+BackupLater == scn.bkd          \* the creating context calls backup_db() while it is open
 Exp == IF BakPresent THEN "B" ELSE "M"     \* the page version a single process would see
 BootSet == IF BootPresent THEN {"boot"} ELSE {}
 \* journal mode of the files the workers find.  A library-made database is a WAL database (its creating
@@ -170,7 +223,7 @@ Init ==
                               ELSE IF i = 2 /\ BakPresent THEN Ino({"B"} \cup BootSet, 0, TRUE, TRUE, Ck({"B"} \cup BootSet, TRUE), JmBak)
                               ELSE Unused]
   /\ wlock = [i \in Inodes |-> 0]
-  /\ pc = [p \in PAll |-> IF p # D THEN "exists" ELSE IF Driver THEN "done" ELSE "closed"]
+  /\ pc = [p \in PAll |-> IF p # D THEN "exists" ELSE IF Driver THEN (IF BackupLater THEN "backup" ELSE "done") ELSE "closed"]
   /\ conn = [p \in PAll |-> IF p = D /\ Driver THEN 1 ELSE 0]
   /\ opn = [p \in PAll |-> p = D /\ Driver]
   /\ snap = [p \in PAll |-> NoSnap]
@@ -180,6 +233,9 @@ Init ==
   /\ raced = FALSE /\ snapfail = FALSE
   /\ life = NoLife
   /\ txn = [p \in PAll |-> "none"]      \* the creating context has committed what it stored
+  \* a database closed by its last connection has no side files; the open creating context has its pair
+  /\ sf = [wal |-> IF Driver THEN 1 ELSE 0, shm |-> IF Driver THEN 1 ELSE 0,
+           att |-> [p \in PAll |-> IF p = D /\ Driver THEN 1 ELSE 0], stale |-> "none", live |-> {}, after |-> 0]
 
 FreeIno == CHOOSE i \in Inodes : ~ino[i].used
 View(p) == IF snap[p].on THEN snap[p].c ELSE ino[conn[p]].c
@@ -188,26 +244,33 @@ Go(p, l) == pc' = [pc EXCEPT ![p] = l] /\ scn' = scn
 Fail(p, why) == pc' = [pc EXCEPT ![p] = "failed"] /\ res' = [res EXCEPT ![p] = why] /\ scn' = scn
 
 (* ---- create_db ---- *)
+\* the restore removes the side files of the database it replaces from their paths - all but those in K
+RemoveSide(K) == [sf EXCEPT !.wal = IF "wal" \in K THEN @ ELSE 0, !.shm = IF "shm" \in K THEN @ ELSE 0,
+                            !.live = @ \cup {IF q = D THEN "D" ELSE IF pc[q] \in {"done", "failed"} THEN "idle" ELSE pc[q] :
+                                             q \in {q \in PAll : pmain # 0 /\ opn[q] /\ sf.att[q] = pmain}}]
 Exists(p) ==
   /\ pc[p] = "exists"
-  /\ IF pbak = 0 THEN Go(p, "connect") /\ UNCHANGED <<pmain, pbak>>
-     ELSE IF RestoreRace THEN Go(p, "unlink") /\ UNCHANGED <<pmain, pbak>>
-     ELSE \* ideal: check, unlink and rename are one indivisible step
-          Go(p, "connect") /\ pmain' = pbak /\ pbak' = 0
+  /\ IF pbak = 0 THEN Go(p, "connect") /\ UNCHANGED <<pmain, pbak, sf>>
+     ELSE IF RestoreRace THEN Go(p, "unlink") /\ UNCHANGED <<pmain, pbak, sf>>
+     ELSE \* ideal: check, unlink (side files included) and rename are one indivisible step
+          Go(p, "connect") /\ pmain' = pbak /\ pbak' = 0 /\ sf' = RemoveSide(RestoreKeeps)
   /\ chk' = [chk EXCEPT ![p] = pbak]
   /\ UNCHANGED <<ino, wlock, conn, snap, saw, res, raced, snapfail, opn, life, txn>>
 
-Unlink(p) ==
+\* unlink(<db>-wal), unlink(<db>-shm), unlink(<db>): one step; K = the side files it leaves in place
+UnlinkK(p, K) ==
   /\ pc[p] = "unlink" /\ pmain' = 0 /\ Go(p, "rename")
+  /\ sf' = RemoveSide(K)
   /\ raced' = (raced \/ pbak # chk[p])
   /\ UNCHANGED <<pbak, ino, wlock, conn, snap, saw, res, chk, snapfail, opn, life, txn>>
+Unlink(p) == UnlinkK(p, RestoreKeeps)
 
 Rename(p) ==
   /\ pc[p] = "rename"
   /\ IF pbak = 0 THEN Fail(p, "fnf") /\ UNCHANGED <<pmain, pbak>>
      ELSE pmain' = pbak /\ pbak' = 0 /\ Go(p, "connect") /\ res' = res
   /\ raced' = (raced \/ pbak # chk[p])
-  /\ UNCHANGED <<ino, wlock, conn, snap, saw, chk, snapfail, opn, life, txn>>
+  /\ UNCHANGED <<ino, wlock, conn, snap, saw, chk, snapfail, opn, life, txn, sf>>
 
 Connect(p) ==
   /\ pc[p] = "connect"
@@ -218,7 +281,7 @@ Connect(p) ==
   /\ Go(p, "script")
   /\ opn' = [opn EXCEPT ![p] = TRUE]
   /\ life' = [life EXCEPT !.lateD = @ \/ life.nlcD, !.lateW = @ \/ life.nlcW]
-  /\ UNCHANGED <<pbak, wlock, snap, saw, res, chk, raced, snapfail, txn>>
+  /\ UNCHANGED <<pbak, wlock, snap, saw, res, chk, raced, snapfail, txn, sf>>
 
 \* First access of the connection (CREATE TABLE IF NOT EXISTS ...; PRAGMA ...): SQLite
 \* opens the -shm/-wal files beside the path and refuses ("disk I/O error") when the file
@@ -228,12 +291,29 @@ Connect(p) ==
 \* connection can be inside a transaction on a rollback-mode file at this point, because every
 \* connection ran this script before its first page access).
 SetsWal(p) == ~ModeByCreatorOnly \/ ~ino[conn[p]].tabs
+\* the side files the first access finds (see SIDE FILES PER PATH)
+Mapped(g, p) == g # 0 /\ \E q \in PAll \ {p} : opn[q] /\ sf.att[q] = g
+\* an index of another generation that some live process has mapped, without its log at the path
+StaleIndex(p) == sf.shm \notin {0, conn[p]} /\ Mapped(sf.shm, p) /\ sf.wal # sf.shm
+\* the log of another generation is at the path and gets used: through its own index that a live process has
+\* mapped, or replayed by the recovery that an absent / orphaned index triggers
+JoinsOldLog(p) == sf.wal \notin {0, conn[p]} /\ ~StaleIndex(p)
 Script(p) ==
   /\ pc[p] = "script"
-  /\ IF pmain # conn[p] THEN Fail(p, "ioerr") /\ ino' = ino /\ opn' = [opn EXCEPT ![p] = FALSE]  \* no context object: the connection is dropped
-     ELSE /\ IF ino[conn[p]].tabs THEN ino' = [ino EXCEPT ![conn[p]].jm = IF SetsWal(p) THEN "wal" ELSE @]
-             ELSE wlock[conn[p]] = 0 /\ ino' = [ino EXCEPT ![conn[p]].tabs = TRUE, ![conn[p]].ver = @ + 1,
-                                                           ![conn[p]].jm = IF SetsWal(p) THEN "wal" ELSE @]
+  /\ IF pmain # conn[p] THEN Fail(p, "ioerr") /\ ino' = ino /\ opn' = [opn EXCEPT ![p] = FALSE] /\ sf' = sf  \* no context object: the connection is dropped
+     ELSE IF StaleIndex(p)
+     THEN \* the opener trusts the index it finds; the frames it points at are not in the (new, empty) log
+          /\ Fail(p, "ioerr") /\ ino' = ino /\ opn' = [opn EXCEPT ![p] = FALSE]
+          /\ sf' = [sf EXCEPT !.wal = IF @ = 0 THEN conn[p] ELSE @, !.stale = "shm"]
+     ELSE /\ LET i == conn[p]
+                 \* a log of another generation laid over the file: the database now shows that generation's pages
+                 base == IF JoinsOldLog(p) THEN [ino EXCEPT ![i].c = ino[sf.wal].c, ![i].ver = @ + 1] ELSE ino
+             IN IF ino[i].tabs THEN ino' = [base EXCEPT ![i].jm = IF SetsWal(p) THEN "wal" ELSE @]
+                ELSE wlock[i] = 0 /\ ino' = [base EXCEPT ![i].tabs = TRUE, ![i].ver = @ + 1,
+                                                         ![i].jm = IF SetsWal(p) THEN "wal" ELSE @]
+          /\ sf' = [sf EXCEPT !.wal = conn[p], !.shm = conn[p], !.att[p] = conn[p],
+                              !.stale = IF JoinsOldLog(p) THEN "wal" ELSE @,
+                              !.after = IF \E q \in PAll \ {p} : opn[q] /\ sf.att[q] \notin {0, conn[p]} THEN @ + 1 ELSE @]
           /\ Go(p, IF Cursor(p) THEN "cursor" ELSE "read1") /\ res' = res /\ opn' = opn
   /\ UNCHANGED <<pmain, pbak, wlock, conn, snap, saw, chk, raced, snapfail, life, txn>>
 
@@ -245,13 +325,13 @@ OpenCursor(p) ==
                                   THEN [on |-> TRUE, c |-> ino[conn[p]].c, ver |-> ino[conn[p]].ver]
                                   ELSE NoSnap]
   /\ Go(p, "read1")
-  /\ UNCHANGED <<pmain, pbak, ino, wlock, conn, saw, res, chk, raced, snapfail, opn, life, txn>>
+  /\ UNCHANGED <<pmain, pbak, ino, wlock, conn, saw, res, chk, raced, snapfail, opn, life, txn, sf>>
 
 Read(p, here, next) ==
   /\ pc[p] = here
   /\ IF Exp \in View(p) THEN Go(p, next) /\ res' = res
      ELSE Fail(p, IF View(p) \ {"boot"} = {} THEN "missing" ELSE "stale")
-  /\ UNCHANGED <<pmain, pbak, ino, wlock, conn, snap, saw, chk, raced, snapfail, opn, life, txn>>
+  /\ UNCHANGED <<pmain, pbak, ino, wlock, conn, snap, saw, chk, raced, snapfail, opn, life, txn, sf>>
 Read1(p) == Read(p, "read1", "bootcheck")
 
 BootFound(p) == "boot" \in View(p) /\ ~BootcheckNeverHits
@@ -259,7 +339,7 @@ Bootcheck(p) ==
   /\ pc[p] = "bootcheck"
   /\ saw' = [saw EXCEPT ![p] = BootFound(p)]
   /\ Go(p, IF BootFound(p) THEN "read2" ELSE "insert")
-  /\ UNCHANGED <<pmain, pbak, ino, wlock, conn, snap, res, chk, raced, snapfail, opn, life, txn>>
+  /\ UNCHANGED <<pmain, pbak, ino, wlock, conn, snap, res, chk, raced, snapfail, opn, life, txn, sf>>
 
 \* A connection that holds a read transaction (the open cursor) cannot wait for the write
 \* lock (SQLite does not run the busy handler then) and cannot upgrade a stale snapshot:
@@ -286,7 +366,7 @@ Insert(p) ==
           /\ wlock' = [wlock EXCEPT ![conn[p]] = p] /\ res' = res /\ snapfail' = snapfail
           /\ txn' = [txn EXCEPT ![p] = "write"]
           /\ Go(p, IF SkipsCommit(p) THEN "read2" ELSE "commit")
-  /\ UNCHANGED <<pmain, pbak, ino, conn, snap, saw, chk, raced, opn, life>>
+  /\ UNCHANGED <<pmain, pbak, ino, conn, snap, saw, chk, raced, opn, life, sf>>
 
 \* an upsert that stores what is stored already writes nothing: no new version
 \* Rollback-journal mode: the commit needs the EXCLUSIVE lock, i.e. no other connection may hold
@@ -307,13 +387,13 @@ Commit(p) ==
                                           THEN [on |-> TRUE, c |-> ino'[conn[p]].c, ver |-> ino'[conn[p]].ver]
                                           ELSE NoSnap]
           /\ Go(p, "read2") /\ res' = res
-  /\ UNCHANGED <<pmain, pbak, conn, saw, chk, raced, snapfail, opn, life>>
+  /\ UNCHANGED <<pmain, pbak, conn, saw, chk, raced, snapfail, opn, life, sf>>
 
 Read2(p) ==
   /\ pc[p] = "read2"
   /\ IF Exp \in View(p) THEN Go(p, "done") /\ res' = [res EXCEPT ![p] = "ok"]
      ELSE Fail(p, IF View(p) \ {"boot"} = {} THEN "missing" ELSE "stale")
-  /\ UNCHANGED <<pmain, pbak, ino, wlock, conn, snap, saw, chk, raced, snapfail, opn, life, txn>>
+  /\ UNCHANGED <<pmain, pbak, ino, wlock, conn, snap, saw, chk, raced, snapfail, opn, life, txn, sf>>
 
 (* ---- close_db_conn ---- *)
 \* commit (nothing pending) + close of the connection.  SQLite: the last connection that
@@ -330,14 +410,18 @@ Close(p) ==
   /\ LET i == conn[p]
          last == OnIno(i) = {p}
      IN /\ IF last
-           THEN ino' = [ino EXCEPT ![i].ck = Ck(ino[i].c, ino[i].tabs)] /\ pmain' = pmain /\ conn' = conn
+           THEN \* checkpoint; the side files are removed by name - when the database file is still the one at
+                \* the path (a connection whose file was replaced or unlinked touches nothing)
+                /\ ino' = [ino EXCEPT ![i].ck = Ck(ino[i].c, ino[i].tabs)] /\ pmain' = pmain /\ conn' = conn
+                /\ sf' = [sf EXCEPT !.wal = IF pmain = i THEN 0 ELSE @, !.shm = IF pmain = i THEN 0 ELSE @, !.att[p] = 0]
            ELSE IF CloseTidies /\ pmain = i
            THEN \* the side files are gone from the path: the others keep theirs (open files),
                 \* whoever opens the path from now on sees the main file alone
                 /\ pmain' = FreeIno
                 /\ ino' = [ino EXCEPT ![FreeIno] = Ino(ino[i].ck.c, 0, ino[i].ck.tabs, TRUE, ino[i].ck, ino[i].jm)]
                 /\ conn' = [q \in PAll |-> IF opn[q] /\ conn[q] = i /\ pc[q] = "script" THEN FreeIno ELSE conn[q]]
-           ELSE ino' = ino /\ pmain' = pmain /\ conn' = conn
+                /\ sf' = [sf EXCEPT !.wal = 0, !.shm = 0, !.att[p] = 0]
+           ELSE ino' = ino /\ pmain' = pmain /\ conn' = conn /\ sf' = [sf EXCEPT !.att[p] = 0]
         /\ life' = IF last THEN life
                    ELSE IF p = D THEN [life EXCEPT !.nlcD = TRUE] ELSE [life EXCEPT !.nlcW = TRUE]
   /\ opn' = [opn EXCEPT ![p] = FALSE]
@@ -350,8 +434,24 @@ Close(p) ==
   /\ txn' = [txn EXCEPT ![p] = "none"]
   /\ UNCHANGED <<pbak, saw, res, chk, raced, snapfail>>
 
+(* ---- backup_db of the creating context ---- *)
+\* commit + Connection.backup into a temporary file + rename to the backup name: the backup file appears in one
+\* step, a byte-for-byte copy (journal mode included) of what the connection sees, a single clean file.  The
+\* application calls it at a moment of its choice while workers are open - not while a worker is inside
+\* create_db (between its look at the backup path and its first access): every worker either finished its
+\* start-up before (it stays on the file that a later restore replaces) or starts after it (the first restores).
+InCreateDb(q) == pc[q] \in {"unlink", "rename", "connect", "script"}
+Backup(p) ==
+  /\ pc[p] = "backup" /\ opn[p] /\ pbak = 0
+  /\ \A q \in Procs : ~InCreateDb(q)
+  /\ pbak' = FreeIno
+  /\ ino' = [ino EXCEPT ![FreeIno] = Ino(ino[conn[p]].c, 0, ino[conn[p]].tabs, TRUE, Ck(ino[conn[p]].c, ino[conn[p]].tabs),
+                                         IF BackupDropsMode THEN "del" ELSE ino[conn[p]].jm)]
+  /\ Go(p, "done")
+  /\ UNCHANGED <<pmain, wlock, conn, snap, saw, res, chk, raced, snapfail, opn, life, txn, sf>>
+
 Step(p) == Exists(p) \/ Unlink(p) \/ Rename(p) \/ Connect(p) \/ Script(p) \/ OpenCursor(p)
-           \/ Read1(p) \/ Bootcheck(p) \/ Insert(p) \/ Commit(p) \/ Read2(p) \/ Close(p)
+           \/ Read1(p) \/ Bootcheck(p) \/ Insert(p) \/ Commit(p) \/ Read2(p) \/ Close(p) \/ Backup(p)
 
 Finished(p) == pc[p] \in {"done", "failed", "closed"}     \* page work over
 Ended(p) == Finished(p) /\ ~opn[p]                        \* ... and context closed
@@ -388,4 +488,10 @@ DoneMeansCommitted == \A p \in PAll : (Idle(p) /\ pc[p] = "done") => txn[p] = "n
 \* the part of it that other workers feel: an idle context never holds the write lock
 NoIdleWriteLock == \A p \in PAll : Idle(p) => txn[p] # "write"
 InTxn(p) == txn[p] # "none"
+\* every connection is attached to the side files of its own database file, nobody ever trusted an index without its
+\* log or had the log of another database laid over its file
+NoStaleSideFile == /\ sf.stale = "none"
+                   /\ \A p \in PAll : (opn[p] /\ sf.att[p] # 0) => sf.att[p] = conn[p]
+\* ... and the side files at the paths belong to the file at the database path (or to nobody)
+SidePathsMatch == (sf.wal \in {0, pmain} /\ sf.shm \in {0, pmain}) \/ pmain = 0
 =============================================================================
